@@ -16,6 +16,7 @@
     against the specification's own lexer.
 """
 import json
+import os
 import random
 import shutil
 import threading
@@ -448,7 +449,8 @@ CP_POOLS = [list(range(32, 127)), [0, 1, 7, 9, 10, 13, 27, 127], list(range(128,
             [0x10000, 0x1f409, 0x1f600, 0x10ffff], [34, 39, 92, 123, 125, 35]]
 
 
-def render_char(rng, c, q, allow_brace=True):
+def render_char(rng, c, q):
+    """(source text, is a bare \\u escape) for one intended code point"""
     forms = []
     if c in NAMED:
         forms += ["named"] * 3
@@ -459,17 +461,17 @@ def render_char(rng, c, q, allow_brace=True):
         forms += ["raw"] * 4
     f = rng.choice(forms)
     if f == "raw":
-        return chr(c)
+        return chr(c), False
     if f == "named":
-        return "\\" + NAMED[c]
+        return "\\" + NAMED[c], False
     case = rng.choice(["lower", "upper", "mixed"])
     if f == "x":
-        return "\\x" + hexdigits(rng, c + 256, case)[1:]
+        return "\\x" + hexdigits(rng, c + 256, case)[1:], False
     h = "0" * rng.choice([0, 0, 1, 4]) + hexdigits(rng, c, case)
     if f == "ub":
         o, cl = rng.choice(["{}", "()", "[]", "<>"])
-        return "\\u" + o + h + cl
-    return "\\u" + h + "\x00"      # bare \u: must not be followed by a hex digit (marker resolved by caller)
+        return "\\u" + o + h + cl, False
+    return "\\u" + h, True
 
 
 def gen_string_literals(rng, tier):
@@ -493,13 +495,11 @@ def gen_string_literals(rng, tier):
         else:
             parts = [render_char(rng, c, q) for c in chars]
             body = ""
-            for i, p in enumerate(parts):
-                if p.endswith("\x00"):
-                    p = p[:-1]
-                    nxt = parts[i + 1] if i + 1 < len(parts) else q
-                    if nxt and (nxt[0] in "0123456789abcdefABCDEF" or nxt[0] in "{([<"):
-                        # a bare \u would swallow the next character: use the braced form instead
-                        p = "\\u{" + p[2:] + "}"
+            for i, (p, bare) in enumerate(parts):
+                nxt = parts[i + 1][0] if i + 1 < len(parts) else q
+                if bare and nxt and nxt[0] in "0123456789abcdefABCDEF{([<":
+                    # a bare \\u would swallow the next character: use the braced form instead
+                    p = "\\u{" + p[2:] + "}"
                 body += p
         out.append((pre + q + body + q, chars, pre))
     return out
@@ -541,11 +541,11 @@ def gen_long(tier):
             "1" * m, "9" * m, "0" * n + "7", "36r" + "z" * (m // 2), "7r" + "6" * (m // 2), "1" * m + "q", "1" * m + "r1",
             # floats: far out of range literals are classified by length, in range ones are evaluated
             "1" * n + ".0", "1" * n + "f", "1" * n + "i", "0." + "0" * n + "1", "1e" + "9" * n, "1e-" + "9" * n, "0e" + "9" * n,
-            "1" * n + "e-" + "9" * 4, "0." + "0" * 300 + "1" * m, "1" * 300 + "." + "1" * m,
+            "0." + "0" * 300 + "1" * m, "1" * 300 + "." + "1" * m,
             "'\\u{" + "0" * n + "41}'", "'\\u" + "0" * n + "41'", "'\\u{" + "F" * 9 + "}'", "'\\u{100000041}'", "'\\uFFFFFFFFF'",
             "\"\\u{FFFFFFFFF}\"", "B'\\u(FFFFFFFF0)'", "F'\\u[123456789]'", "'\\u{FFFFFFFF}'", "'\\u{FFFFFFFFFFFFFFFFFFFF}'"]
     proto = ["1" * n, "9" * n, "123456789" * (n // 9), "1" * n + "q", "36r" + "z" * n, "7r" + "6" * n, "1" * n + "r1", "10r" + "9" * n,
-             "0." + "1234567890" * (n // 10), "1" * n + "." + "9" * n + "e-" + "9" * 4, "x" * n, "'" + "a" * n + "'", "+" * n, "_" * n]
+             "0." + "1234567890" * (n // 10), "1" * n + "." + "9" * n + "e-" + "9" * 4, "1" * n + "e-" + "9" * 4, "x" * n, "'" + "a" * n + "'", "+" * n, "_" * n]
     if tier == "thorough":
         full += ["0x" + "f" * (10 * n), "123456789" * (m // 9), "0." + "1234567890" * 200, "9" * 1000 + "e-700"]
         proto += ["1" * (10 * n), "(" * n + "1" + ")" * n]
@@ -608,7 +608,9 @@ def drive(rep, tier, seed, wd, mc_strings):
         if not idx:
             return
         evl = [dict(events[i]) for i in idx]
-        m, _ = nv.validate_trace("Trace_Lexer", evl, wd, chunk=chunk, timeout=2400, par=max(2, nv.JOBS // 3), xmx="2g")
+        sub = os.path.join(wd, "chunk%d" % chunk)
+        os.makedirs(sub, exist_ok=True)
+        m, _ = nv.validate_trace("Trace_Lexer", evl, sub, chunk=chunk, timeout=2400, par=max(2, nv.JOBS // 3), xmx="2g")
         with lock:
             mism.extend((idx[k], exp) for k, exp in m)
 
